@@ -14,7 +14,7 @@ use std::collections::HashSet;
 use std::fmt::Debug;
 use std::io::{Error, ErrorKind};
 use std::mem::MaybeUninit;
-use std::sync::Arc;
+use std::sync::{Arc, Mutex};
 use std::thread::JoinHandle;
 use std::time::Duration;
 
@@ -48,7 +48,7 @@ impl_display_by_debug!(MonitorState);
 #[repr(C)]
 #[derive(Debug)]
 pub(crate) struct Monitor {
-    notify_queue: UnsafeCell<HashSet<NotifyNode>>,
+    notify_queue: Mutex<HashSet<NotifyNode>>,
     state: Cell<MonitorState>,
     thread: UnsafeCell<MaybeUninit<JoinHandle<()>>>,
     blocker: Arc<CondvarBlocker>,
@@ -57,7 +57,7 @@ pub(crate) struct Monitor {
 impl Default for Monitor {
     fn default() -> Self {
         Monitor {
-            notify_queue: UnsafeCell::default(),
+            notify_queue: Mutex::default(),
             state: Cell::new(MonitorState::Created),
             thread: UnsafeCell::new(MaybeUninit::uninit()),
             blocker: Arc::default(),
@@ -176,10 +176,15 @@ impl Monitor {
     fn monitor_thread_main() {
         let monitor = Self::get_instance();
         Self::init_current(monitor);
-        let notify_queue = unsafe { &*monitor.notify_queue.get() };
-        while MonitorState::Running == monitor.state.get() || !notify_queue.is_empty() {
+        loop {
+            // The scheduling threads insert and remove their nodes concurrently. A thread removes
+            // its node before it can exit, so signalling under the lock never hits a dead thread.
+            let notify_queue = monitor.notify_queue.lock().expect("lock failed");
+            if MonitorState::Running != monitor.state.get() && notify_queue.is_empty() {
+                break;
+            }
             //只遍历，不删除，如果抢占调度失败，会在1ms后不断重试，相当于主动检测
-            for node in notify_queue {
+            for node in notify_queue.iter() {
                 if now() < node.timestamp {
                     continue;
                 }
@@ -208,6 +213,7 @@ impl Monitor {
                     }
                 }
             }
+            drop(notify_queue);
             //monitor线程不执行协程计算任务，每次循环至少wait 1ms
             monitor.blocker.clone().block(Duration::from_millis(1));
         }
@@ -329,7 +335,6 @@ impl Monitor {
     fn submit(timestamp: u64) -> std::io::Result<NotifyNode> {
         let instance = Self::get_instance();
         instance.start()?;
-        let queue = unsafe { &mut *instance.notify_queue.get() };
         cfg_if::cfg_if! {
             if #[cfg(unix)] {
                 let node = NotifyNode {
@@ -345,15 +350,22 @@ impl Monitor {
                 };
             }
         }
-        _ = queue.insert(node);
+        _ = instance
+            .notify_queue
+            .lock()
+            .expect("lock failed")
+            .insert(node);
         instance.blocker.notify();
         Ok(node)
     }
 
     fn remove(node: &NotifyNode) -> bool {
         let instance = Self::get_instance();
-        let queue = unsafe { &mut *instance.notify_queue.get() };
-        queue.remove(node)
+        instance
+            .notify_queue
+            .lock()
+            .expect("lock failed")
+            .remove(node)
     }
 }
 
